@@ -662,10 +662,18 @@ Proof.
 Qed.
 
 (* ------------------------------------------------------------------ session *)
+(* IPCP has been started with a usable assignment v: the session address is nil (only after a reservation
+   conflict on re-authentication) or v, and nothing but v is remembered as negotiated *)
 Definition sess_inv (s : sess) : Prop :=
   exists v, ic_assigned (s_cfg s) = Some v /\ length v = 4%nat /\ all_zero v = false /\
-            (exists a, s_addr s = Some a /\ to4 a = Some v) /\
+            (s_addr s = None \/ exists a, s_addr s = Some a /\ to4 a = Some v) /\
             (pp_addr (s_peer s) = None \/ pp_addr (s_peer s) = Some v).
+
+(* IPCP was never started: Initial, no session address, not open *)
+Definition sess_idle (s : sess) : Prop := s_fsm s = 0%N /\ s_addr s = None /\ s_open s = false.
+Definition sess_ok (s : sess) : Prop := sess_idle s \/ sess_inv s.
+
+Definition is_reauth_b (e : sev) : bool := match e with EvReauth _ _ => true | _ => false end.
 
 Lemma usable_assigned_of_inv : forall s, sess_inv s -> usable (ic_assigned (s_cfg s)) = true.
 Proof.
@@ -679,40 +687,50 @@ Proof.
   intros H; inversion H; subst. simpl. exact E.
 Qed.
 
-(* IPCP was never started: Initial, no session address, not open *)
-Definition sess_idle (s : sess) : Prop := s_fsm s = 0%N /\ s_addr s = None /\ s_open s = false.
-Definition sess_ok (s : sess) : Prop := sess_idle s \/ sess_inv s.
-
-(* startNCP: either IPCP is (re)started with a usable assignment, or the address is unusable and IPCP is
-   left alone *)
-Lemma start_ncp_inv : forall c st p addr op last,
-  (usable addr = false -> st = 0%N /\ op = false) ->
-  sess_ok (fst (start_ncp repaired c st p addr op last)).
+(* startNCP (repaired, either owner): either IPCP is (re)started with a usable assignment which is also the
+   session address, or nothing about IPCP changes and the session address becomes nil *)
+Lemma start_ncp_spec : forall ow c st p addr op last orc,
+  let r := fst (start_ncp repaired ow c st p addr op last orc) in
+  (exists v, ic_assigned (s_cfg r) = Some v /\ length v = 4%nat /\ all_zero v = false /\
+             (exists a, s_addr r = Some a /\ to4 a = Some v) /\ pp_addr (s_peer r) = None) \/
+  (s_cfg r = c /\ s_fsm r = st /\ s_peer r = p /\ s_addr r = None /\ s_open r = op).
 Proof.
-  intros c st p addr op last Hno. unfold start_ncp.
-  destruct (usable addr) eqn:Hu.
-  - right. destruct (usable_spec _ Hu) as (v & Hv & Hl & Hz).
-    unfold ipcp_set_peer. simpl. destruct (up_open st) as [a st'] eqn:E. simpl.
-    exists v. simpl. rewrite Hv. repeat split; auto.
-    destruct addr as [x|]; [|discriminate]. exists x. auto.
-  - left. destruct (Hno eq_refl) as [-> ->]. simpl. repeat split.
+  intros ow c st p addr op last orc. unfold start_ncp.
+  set (addr1 := match addr with None => or_alloc orc | Some a =>
+                  match ow with PPPoE => if or_reserve_ok orc then Some a else None | LNS => Some a end end).
+  cbn [f_always repaired]. rewrite orb_false_r.
+  destruct (usable addr1) eqn:Hu; [left|right; simpl; auto].
+  destruct (usable_spec _ Hu) as (v & Hv & Hl & Hz).
+  destruct addr1 as [x|]; [|discriminate].
+  assert (E : (match ow, Some x with LNS, None => (c, p) | _, _ => ipcp_set_peer repaired c p (Some x) end)
+              = ipcp_set_peer repaired c p (Some x)) by (destruct ow; reflexivity).
+  rewrite E. unfold ipcp_set_peer. cbn [f_keep repaired]. destruct (up_open st) as [a st'].
+  exists v. destruct ow; simpl; simpl in Hv; rewrite Hv; repeat split; auto; exists x; auto.
 Qed.
 
-Lemma sess_start_ok : forall aaa, sess_ok (sess_start repaired aaa).
-Proof. intros aaa. unfold sess_start. apply start_ncp_inv. auto. Qed.
-
-Definition is_reauth_b (e : sev) : bool := match e with EvReauth _ => true | _ => false end.
+Lemma sess_start_ok : forall ow aaa orc, sess_ok (sess_start repaired ow aaa orc).
+Proof.
+  intros ow aaa orc. unfold sess_start.
+  destruct (start_ncp_spec ow (mk_ipcp_cfg None None) 0 ipeer0 (extract_ip repaired aaa) false [] orc)
+    as [(v & Hv & Hl & Hz & Ha & Hp)|(_ & H2 & _ & H4 & H5)].
+  - right. exists v. repeat split; auto.
+  - left. repeat split; auto.
+Qed.
 
 Lemma on_act_fold_inv : forall v p acts ad op,
   length v = 4%nat ->
   (pp_addr p = None \/ pp_addr p = Some v) ->
-  (exists a, ad = Some a /\ to4 a = Some v) ->
-  exists a, fst (fold_left (on_act repaired p) acts (ad, op)) = Some a /\ to4 a = Some v.
+  (ad = None \/ exists a, ad = Some a /\ to4 a = Some v) ->
+  let ad' := fst (fold_left (on_act repaired p) acts (ad, op)) in
+  (ad' = None \/ exists a, ad' = Some a /\ to4 a = Some v) /\ (ad <> None -> ad' <> None).
 Proof.
-  intros v p acts. induction acts as [|x acts IH]; intros ad op Hl Hp Ha; simpl; [exact Ha|].
-  destruct (on_act repaired p (ad, op) x) as [ad1 op1] eqn:E. apply IH; auto.
-  destruct x; simpl in E; inversion E; subst; auto.
-  destruct Hp as [Hp|Hp]; rewrite Hp; auto. exists v. split; auto. apply to4_of_len4; auto.
+  intros v p acts. induction acts as [|x acts IH]; intros ad op Hl Hp Ha; simpl; [split; auto|].
+  destruct (on_act repaired p (ad, op) x) as [ad1 op1] eqn:E.
+  assert (H1 : (ad1 = None \/ exists a, ad1 = Some a /\ to4 a = Some v) /\ (ad <> None -> ad1 <> None)).
+  { destruct x; simpl in E; inversion E; subst; auto.
+    destruct Hp as [Hp|Hp]; rewrite Hp; [auto|].
+    split; [right; exists v; split; auto; apply to4_of_len4; auto|intros _; discriminate]. }
+  destruct H1 as [H1 H2]. destruct (IH ad1 op1 Hl Hp H1) as [H3 H4]. split; auto.
 Qed.
 
 Lemma ipcp_learn_assigned : forall os c, ic_assigned (ipcp_learn c os) = ic_assigned c.
@@ -722,26 +740,33 @@ Proof.
 Qed.
 
 Lemma sess_fsm_only_inv : forall s c' r,
-  sess_inv s -> ic_assigned c' = ic_assigned (s_cfg s) -> sess_inv (fst (sess_fsm_only repaired s c' r)).
+  sess_inv s -> ic_assigned c' = ic_assigned (s_cfg s) ->
+  sess_inv (fst (sess_fsm_only repaired s c' r)) /\
+  (s_addr s <> None -> s_addr (fst (sess_fsm_only repaired s c' r)) <> None).
 Proof.
   intros s c' [a st'] (v & Hv & Hl & Hz & Ha & Hp) Hc. unfold sess_fsm_only.
+  pose proof (on_act_fold_inv v (s_peer s) a (s_addr s) (s_open s) Hl Hp Ha) as [H1 H2].
   destruct (fold_left (on_act repaired (s_peer s)) a (s_addr s, s_open s)) as [ad op] eqn:F.
-  simpl. exists v. simpl. rewrite Hc. repeat split; auto.
-  pose proof (on_act_fold_inv v (s_peer s) a (s_addr s) (s_open s) Hl Hp Ha) as H. rewrite F in H. exact H.
+  simpl in *. split; [|exact H2]. exists v. simpl. rewrite Hc. repeat split; auto.
 Qed.
 
-Lemma sess_reauth_ok : forall s aaa, sess_ok s -> sess_ok (fst (sess_step repaired s (EvReauth aaa))).
+Lemma sess_reauth_ok : forall s aaa orc, sess_ok s -> sess_ok (fst (sess_step repaired s (EvReauth aaa orc))).
 Proof.
-  intros s aaa H. cbn [sess_step]. apply start_ncp_inv. intros Hu.
-  destruct H as [(H1 & H2 & H3)|(v & Hv & Hl & Hz & (a0 & Ha0 & Hto0) & Hp)]; [auto|].
-  exfalso. destruct (extract_ip repaired aaa) eqn:E.
-  - rewrite (extract_repaired_usable _ _ E) in Hu. discriminate.
-  - rewrite Ha0 in Hu. simpl in Hu. rewrite Hto0, Hz in Hu. discriminate.
+  intros s aaa orc H. cbn [sess_step].
+  set (addr := match extract_ip repaired aaa with Some x => Some x | None => s_addr s end).
+  destruct (start_ncp_spec (s_owner s) (s_cfg s) (s_fsm s) (s_peer s) addr (s_open s) (s_lastreq s) orc)
+    as [(v & Hv & Hl & Hz & Ha & Hp)|(E1 & E2 & E3 & E4 & E5)].
+  - right. exists v. repeat split; auto.
+  - destruct H as [(I1 & I2 & I3)|(v & Hv & Hl & Hz & Ha & Hp)].
+    + left. unfold sess_idle. rewrite E2, E4, E5. auto.
+    + right. exists v. rewrite E1, E3, E4. repeat split; auto.
 Qed.
 
-Lemma sess_step_inv : forall s e, is_reauth_b e = false -> sess_inv s -> sess_inv (fst (sess_step repaired s e)).
+Lemma sess_step_inv : forall s e, is_reauth_b e = false -> sess_inv s ->
+  sess_inv (fst (sess_step repaired s e)) /\
+  (s_addr s <> None -> s_addr (fst (sess_step repaired s e)) <> None).
 Proof.
-  intros s e Hre Hinv. destruct e as [id wire| |w|w|w|aaa]; [| | | | |discriminate];
+  intros s e Hre Hinv. destruct e as [id wire| |w|w|w|aaa orc]; [| | | | |discriminate];
     cbn [sess_step];
     try (apply sess_fsm_only_inv; [exact Hinv|]; try reflexivity; apply ipcp_learn_assigned).
   pose proof (usable_assigned_of_inv s Hinv) as Hu.
@@ -750,7 +775,7 @@ Proof.
   { rewrite Hv. simpl. apply to4_of_len4; auto. }
   unfold ipcp_input.
   destruct (parse_wire wire) as [opts| | |] eqn:P;
-    try solve [simpl; exists v; simpl; repeat split; auto].
+    try solve [simpl; split; [exists v; simpl; repeat split; auto|auto]].
   destruct (ipcp_req (s_cfg s) (s_peer s) opts) as [r p'] eqn:R.
   destruct (rcr_event (s_fsm s) id r) as [a st'] eqn:E.
   assert (Hp' : pp_addr p' = None \/ pp_addr p' = Some v).
@@ -760,9 +785,9 @@ Proof.
     right. rewrite H. f_equal.
     apply ipcp_kind_ack in K. destruct K as (Hlen & [(_ & _ & He)|[X|X]]); try (rewrite X in T; discriminate).
     specialize (He Hu). rewrite Hto in He. simpl in He. apply ip_equal_len4 in He; auto. }
+  pose proof (on_act_fold_inv v p' a (s_addr s) (s_open s) Hl Hp' Ha) as [H1 H2].
   destruct (fold_left (on_act repaired p') a (s_addr s, s_open s)) as [ad op] eqn:F.
-  simpl. exists v. simpl. repeat split; auto.
-  pose proof (on_act_fold_inv v p' a (s_addr s) (s_open s) Hl Hp' Ha) as H. rewrite F in H. exact H.
+  simpl in *. split; [|exact H2]. exists v. simpl. repeat split; auto.
 Qed.
 
 (* a session whose IPCP was never started stays silent and closed whatever the subscriber sends *)
@@ -770,7 +795,7 @@ Lemma sess_step_idle : forall fl s e, is_reauth_b e = false -> sess_idle s ->
   sess_idle (fst (sess_step fl s e)) /\ snd (sess_step fl s e) = [].
 Proof.
   intros fl s e Hre (H1 & H2 & H3). unfold sess_idle.
-  destruct e as [id wire| |w|w|w|aaa]; [| | | | |discriminate]; cbn [sess_step];
+  destruct e as [id wire| |w|w|w|aaa orc]; [| | | | |discriminate]; cbn [sess_step];
     unfold sess_fsm_only; rewrite ?H1, ?H2, ?H3; try (simpl; auto; fail).
   unfold ipcp_input. destruct (parse_wire wire); simpl; auto.
   destruct (ipcp_req (s_cfg s) (s_peer s) a) as [r p']. simpl. auto.
@@ -788,6 +813,52 @@ Proof.
   induction es as [|e es IH]; intros s H; simpl; auto. apply IH. apply sess_step_ok. exact H.
 Qed.
 
+(* without a reservation conflict the session address of a started session is never nil *)
+Definition no_conflict (e : sev) : bool :=
+  match e with EvReauth _ orc => or_reserve_ok orc | _ => true end.
+Definition sess_ok2 (s : sess) : Prop := sess_idle s \/ (sess_inv s /\ s_addr s <> None).
+
+Lemma sess_step_ok2 : forall s e, no_conflict e = true -> sess_ok2 s -> sess_ok2 (fst (sess_step repaired s e)).
+Proof.
+  intros s e Hnc H. destruct (is_reauth_b e) eqn:Hre.
+  - destruct e as [| | | | |aaa orc]; try discriminate. simpl in Hnc. cbn [sess_step].
+    set (addr := match extract_ip repaired aaa with Some x => Some x | None => s_addr s end).
+    pose proof (sess_reauth_ok s aaa orc) as Hok. cbn [sess_step] in Hok. fold addr in Hok.
+    destruct (start_ncp_spec (s_owner s) (s_cfg s) (s_fsm s) (s_peer s) addr (s_open s) (s_lastreq s) orc)
+      as [(v & Hv & Hl & Hz & (a & Ha & Hto) & Hp)|(E1 & E2 & E3 & E4 & E5)].
+    + right. split; [exists v; repeat split; auto; right; exists a; auto|rewrite Ha; discriminate].
+    + destruct H as [(I1 & I2 & I3)|(Hinv & Hne)].
+      * left. unfold sess_idle. rewrite E2, E4, E5. auto.
+      * exfalso. (* a started session with an address and no conflict keeps a usable address *)
+        destruct Hinv as (v & Hv & Hl & Hz & Ha & Hp).
+        destruct Ha as [Ha|(a0 & Ha0 & Hto0)]; [contradiction|].
+        assert (Hu : usable addr = true).
+        { unfold addr. destruct (extract_ip repaired aaa) eqn:E; [eapply extract_repaired_usable; eauto|].
+          rewrite Ha0. simpl. rewrite Hto0, Hz. reflexivity. }
+        destruct addr as [x|] eqn:Ea; [|discriminate].
+        revert E4. unfold start_ncp. cbn [f_always repaired]. rewrite orb_false_r.
+        destruct (s_owner s); rewrite ?Hnc, Hu; unfold ipcp_set_peer; destruct (up_open (s_fsm s));
+          simpl; discriminate.
+  - assert (Hre' : is_reauth_b e = false) by exact Hre.
+    destruct H as [H|(H & Hne)]; [left; apply sess_step_idle; auto|right].
+    destruct (sess_step_inv s e Hre' H) as [A B]. split; auto.
+Qed.
+
+Lemma sess_run_ok2 : forall es s, forallb no_conflict es = true -> sess_ok2 s -> sess_ok2 (sess_run repaired s es).
+Proof.
+  induction es as [|e es IH]; intros s Hnc H; simpl in *; auto.
+  apply andb_true_iff in Hnc. destruct Hnc as [H1 H2]. apply IH; auto. apply sess_step_ok2; auto.
+Qed.
+
+Lemma sess_start_ok2 : forall ow aaa orc, sess_ok2 (sess_start repaired ow aaa orc).
+Proof.
+  intros ow aaa orc. unfold sess_start.
+  destruct (start_ncp_spec ow (mk_ipcp_cfg None None) 0 ipeer0 (extract_ip repaired aaa) false [] orc)
+    as [(v & Hv & Hl & Hz & (a & Ha & Hto) & Hp)|(_ & H2 & _ & H4 & H5)].
+  - right. split; [exists v; repeat split; auto; right; exists a; auto|rewrite Ha; discriminate].
+  - left. repeat split; auto.
+Qed.
+
 Definition is_reauth (e : sev) : bool := is_reauth_b e.
 
 (* no packet of the subscriber changes the assigned address (any variant); only a new AAA answer does *)
@@ -798,7 +869,7 @@ Proof.
   assert (F : forall c' r, ic_assigned c' = ic_assigned (s_cfg s) ->
               ic_assigned (s_cfg (fst (sess_fsm_only fl s c' r))) = ic_assigned (s_cfg s)).
   { intros c' [a st'] Hc. unfold sess_fsm_only. destruct (fold_left _ _ _). simpl. exact Hc. }
-  destruct e as [id wire| |w|w|w|aaa]; [| | | | |discriminate]; cbn [sess_step];
+  destruct e as [id wire| |w|w|w|aaa orc]; [| | | | |discriminate]; cbn [sess_step];
     try (apply F; try reflexivity; apply ipcp_learn_assigned).
   unfold ipcp_input. destruct (parse_wire wire); simpl; auto.
   destruct (ipcp_req _ _ _). destruct (rcr_event _ _ _). destruct (fold_left _ _ _). reflexivity.
@@ -812,37 +883,63 @@ Proof.
   apply sess_step_assigned. destruct (is_reauth e); [discriminate|reflexivity].
 Qed.
 
-(* at every point of every history: either IPCP was never started (no address, silent, closed), or the
-   assigned address is usable, the session address is the assigned one and nothing stale is remembered *)
-Lemma adopted_is_assigned : forall aaa es,
-  let s := sess_run repaired (sess_start repaired aaa) es in
+(* at every point of every history, for both owners: either IPCP was never started (no address, closed), or
+   the assigned address is usable, the session address is nil or the assigned one, nothing stale is remembered *)
+Lemma adopted_is_assigned : forall ow aaa orc es,
+  let s := sess_run repaired (sess_start repaired ow aaa orc) es in
   (s_fsm s = 0%N /\ s_addr s = None /\ s_open s = false) \/
   (usable (ic_assigned (s_cfg s)) = true /\
-   to4o (s_addr s) = ic_assigned (s_cfg s) /\
+   (s_addr s = None \/ to4o (s_addr s) = ic_assigned (s_cfg s)) /\
    (pp_addr (s_peer s) = None \/ pp_addr (s_peer s) = ic_assigned (s_cfg s))).
 Proof.
-  intros aaa es s.
-  pose proof (sess_run_ok es _ (sess_start_ok aaa)) as H. fold s in H.
+  intros ow aaa orc es s.
+  pose proof (sess_run_ok es _ (sess_start_ok ow aaa orc)) as H. fold s in H.
   destruct H as [H|H]; [left; exact H|right].
   split; [apply usable_assigned_of_inv; exact H|].
-  destruct H as (v & Hv & _ & _ & (a & Ha & Hto) & Hp). rewrite Ha, Hv. simpl. split; [exact Hto|exact Hp].
+  destruct H as (v & Hv & _ & _ & Ha & Hp). rewrite Hv. split; [|exact Hp].
+  destruct Ha as [Ha|(a & Ha & Hto)]; [left; exact Ha|right; rewrite Ha; exact Hto].
 Qed.
 
-(* startNCP starts IPCP exactly when the session owns a usable IPv4 address, and then with that address
-   assigned; a session without one never starts IPCP *)
-Lemma startncp_assigned : forall aaa,
-  let s := sess_start repaired aaa in
-  (usable (extract_ip repaired aaa) = true ->
-     s_fsm s = 6%N /\ usable (ic_assigned (s_cfg s)) = true /\
-     ic_assigned (s_cfg s) = to4o (extract_ip repaired aaa) /\ s_addr s = extract_ip repaired aaa) /\
-  (usable (extract_ip repaired aaa) = false ->
+(* and when no re-authentication runs into a reservation conflict the session address IS the assigned one *)
+Lemma adopted_is_assigned_no_conflict : forall ow aaa orc es,
+  forallb no_conflict es = true ->
+  let s := sess_run repaired (sess_start repaired ow aaa orc) es in
+  (s_fsm s = 0%N /\ s_addr s = None /\ s_open s = false) \/
+  (usable (ic_assigned (s_cfg s)) = true /\ to4o (s_addr s) = ic_assigned (s_cfg s)).
+Proof.
+  intros ow aaa orc es Hnc s.
+  pose proof (sess_run_ok2 es _ Hnc (sess_start_ok2 ow aaa orc)) as H. fold s in H.
+  destruct H as [H|(H & Hne)]; [left; exact H|right].
+  split; [apply usable_assigned_of_inv; exact H|].
+  destruct H as (v & Hv & _ & _ & Ha & Hp). rewrite Hv.
+  destruct Ha as [Ha|(a & Ha & Hto)]; [contradiction|rewrite Ha; exact Hto].
+Qed.
+
+(* startNCP starts IPCP exactly when, after allocation / reservation, the session owns a usable IPv4
+   address, and then with that address assigned; otherwise IPCP is never started *)
+Definition addr_after_registry (ow : owner) (addr : option bytes) (orc : oracle) : option bytes :=
+  match addr with
+  | None => or_alloc orc
+  | Some a => match ow with PPPoE => if or_reserve_ok orc then Some a else None | LNS => Some a end
+  end.
+
+Lemma startncp_assigned : forall ow aaa orc,
+  let s := sess_start repaired ow aaa orc in
+  let a := addr_after_registry ow (extract_ip repaired aaa) orc in
+  (usable a = true ->
+     s_fsm s = 6%N /\ usable (ic_assigned (s_cfg s)) = true /\ ic_assigned (s_cfg s) = to4o a /\ s_addr s = a) /\
+  (usable a = false ->
      s_fsm s = 0%N /\ s_addr s = None /\ s_open s = false /\ ic_assigned (s_cfg s) = None).
 Proof.
-  intros aaa s. unfold s, sess_start, start_ncp.
-  destruct (usable (extract_ip repaired aaa)) eqn:Hu; split; intros H; try discriminate.
-  - simpl. repeat split; auto.
-    destruct (usable_spec _ Hu) as (v & Hv & Hl & Hz). rewrite Hv. simpl.
-    rewrite (to4_of_len4 v Hl), Hz. reflexivity.
+  intros ow aaa orc s a. unfold s, sess_start, start_ncp. fold (addr_after_registry ow (extract_ip repaired aaa) orc).
+  fold a. cbn [f_always repaired]. rewrite orb_false_r.
+  destruct (usable a) eqn:Hu; split; intros H; try discriminate.
+  - destruct (usable_spec _ Hu) as (v & Hv & Hl & Hz).
+    destruct a as [x|]; [|discriminate].
+    assert (E : (match ow, Some x with LNS, None => (mk_ipcp_cfg None None, ipeer0) | _, _ =>
+                   ipcp_set_peer repaired (mk_ipcp_cfg None None) ipeer0 (Some x) end)
+                = ipcp_set_peer repaired (mk_ipcp_cfg None None) ipeer0 (Some x)) by (destruct ow; reflexivity).
+    rewrite E. simpl in Hv. destruct ow; simpl; rewrite Hv; simpl; rewrite (to4_of_len4 v Hl), Hz; auto.
   - simpl. repeat split.
 Qed.
 
@@ -1017,4 +1114,285 @@ Qed.
 Lemma iobj_run_remembered : forall ops s, remembered_ok s -> remembered_ok (iobj_run repaired s ops).
 Proof.
   induction ops as [|o ops IH]; intros s H; simpl; auto. apply IH. apply iobj_step_remembered. exact H.
+Qed.
+
+(* ------------------------------------------------------------------ which packet answers a request *)
+Lemma reply_is_conf : forall id r, is_conf (reply id r) = true.
+Proof. intros. unfold reply. destruct (is_good r); [reflexivity|]. destruct (has_rej r); reflexivity. Qed.
+
+Lemma reply_priority : forall id r,
+  (r_rej r <> [] -> reply id r = Scj id (r_rej r)) /\
+  (r_rej r = [] -> r_nak r <> [] -> reply id r = Scn id (r_nak r)) /\
+  (r_rej r = [] -> r_nak r = [] -> reply id r = Sca id (r_ack r)).
+Proof.
+  intros id r. unfold reply, is_good, has_rej.
+  destruct (r_nak r), (r_rej r); repeat split; intros; try congruence; reflexivity.
+Qed.
+
+Lemma rcr_event_conf : forall st id r acts st',
+  rcr_event st id r = (acts, st') ->
+  conf_packets acts = if replies st then [reply id r] else [].
+Proof.
+  intros st id r acts st' H. unfold rcr_event in H. unfold replies, conf_packets.
+  repeat match type of H with
+  | context [match ?x with _ => _ end] => destruct x
+  end; inversion H; subst; cbn -[reply]; rewrite ?reply_is_conf; reflexivity.
+Qed.
+
+Lemma ipcp_wire_packet : forall c st p id wire acts st' p',
+  ipcp_input c st p id wire = (acts, st', p') ->
+  match parse_wire wire with
+  | Ok os => conf_packets acts = if replies st then [reply id (fst (ipcp_req c p os))] else []
+  | _ => acts = []
+  end.
+Proof.
+  intros c st p id wire acts st' p' H. unfold ipcp_input in H.
+  destruct (parse_wire wire) as [os| | |]; try (inversion H; reflexivity).
+  destruct (ipcp_req c p os) as [r p1]. destruct (rcr_event st id r) as [a s1] eqn:E.
+  inversion H; subst. simpl. eapply rcr_event_conf; eauto.
+Qed.
+
+Lemma lcp_wire_packet : forall fl magic st p id wire acts st' p',
+  lcp_input fl magic st p id wire = (acts, st', p') ->
+  match parse_wire wire with
+  | Ok os => conf_packets acts = if replies st then [reply id (fst (lcp_req fl magic p os))] else []
+  | _ => acts = []
+  end.
+Proof.
+  intros fl magic st p id wire acts st' p' H. unfold lcp_input in H.
+  destruct (parse_wire wire) as [os| | |]; try (inversion H; reflexivity).
+  destruct (lcp_req fl magic p os) as [r p1]. destruct (rcr_event st id r) as [a s1] eqn:E.
+  inversion H; subst. simpl. eapply rcr_event_conf; eauto.
+Qed.
+
+Lemma ipv6cp_wire_packet : forall local st p oracle id wire acts st' p',
+  ipv6cp_input local st p oracle id wire = (acts, st', p') ->
+  match parse_wire wire with
+  | Ok os => conf_packets acts =
+             if replies st then [reply id (v6_res (ipv6cp_req local p oracle os))] else []
+  | _ => acts = []
+  end.
+Proof.
+  intros local st p oracle id wire acts st' p' H. unfold ipv6cp_input in H.
+  destruct (parse_wire wire) as [os| | |]; try (inversion H; reflexivity).
+  destruct (rcr_event st id (v6_res (ipv6cp_req local p oracle os))) as [a s1] eqn:E.
+  inversion H; subst. eapply rcr_event_conf; eauto.
+Qed.
+
+(* -- IPCP: what is rejected, what is Nak'd, with a usable assigned address -- *)
+Definition ipcp_rejectable (o : opt) : bool :=
+  negb ((N.eqb (o_type o) 3 || N.eqb (o_type o) 129 || N.eqb (o_type o) 131) && Nat.eqb (length (o_data o)) 4).
+
+Lemma ipcp_krej_usable : forall c o, usable (ic_assigned c) = true ->
+  is_krej (ipcp_kind c o) = ipcp_rejectable o.
+Proof.
+  intros c o Hu. unfold ipcp_kind, ipcp_dns_kind, ipcp_rejectable. rewrite Hu.
+  destruct (usable_spec _ Hu) as (v & Hv & Hl & Hz). rewrite Hv. unfold ip_equal_o.
+  destruct (N.eqb_spec (o_type o) 3) as [T3|T3]; cbn [orb andb].
+  - destruct (Nat.eqb_spec (length (o_data o)) 4) as [L|L]; cbn [negb]; [|reflexivity].
+    destruct (ip_equal (o_data o) v) eqn:E; cbn [negb]; [|reflexivity].
+    apply ip_equal_len4 in E; auto.
+    rewrite ip_equal_zero by exact L. rewrite E, Hz. reflexivity.
+  - destruct (N.eqb (o_type o) 129); cbn [orb andb].
+    + destruct (Nat.eqb (length (o_data o)) 4); cbn [negb]; [|reflexivity].
+      destruct (ip_equal (o_data o) ipv4zero && dns_usable (ic_dns1 c)); reflexivity.
+    + destruct (N.eqb (o_type o) 131); cbn [orb andb]; [|reflexivity].
+      destruct (Nat.eqb (length (o_data o)) 4); cbn [negb]; [|reflexivity].
+      destruct (ip_equal (o_data o) ipv4zero && dns_usable (ic_dns2 c)); reflexivity.
+Qed.
+
+Lemma filter_ext_in : forall {A} (f g : A -> bool) l, (forall x, In x l -> f x = g x) -> filter f l = filter g l.
+Proof.
+  induction l as [|a l IH]; simpl; intros H; [reflexivity|].
+  rewrite (H a (or_introl eq_refl)). rewrite IH; auto.
+Qed.
+
+Lemma ipcp_rej_list : forall c p os, usable (ic_assigned c) = true ->
+  r_rej (fst (ipcp_req c p os)) = filter ipcp_rejectable os.
+Proof.
+  intros c p os Hu. destruct (ipcp_partition c p os) as (_ & _ & C). rewrite C.
+  apply filter_ext_in. intros o _. apply ipcp_krej_usable; exact Hu.
+Qed.
+
+(* the Reject side on the wire *)
+Lemma ipcp_wire_rej : forall c st p id wire acts st' p' os,
+  usable (ic_assigned c) = true ->
+  ipcp_input c st p id wire = (acts, st', p') -> parse_wire wire = Ok os -> replies st = true ->
+  (exists o, In o os /\ ipcp_rejectable o = true) ->
+  conf_packets acts = [Scj id (filter ipcp_rejectable os)].
+Proof.
+  intros c st p id wire acts st' p' os Hu Hin Hp Hr (o & Ho & Hrej).
+  pose proof (ipcp_wire_packet _ _ _ _ _ _ _ _ Hin) as W. rewrite Hp, Hr in W. rewrite W.
+  f_equal. destruct (reply_priority id (fst (ipcp_req c p os))) as (R1 & _).
+  rewrite R1; rewrite (ipcp_rej_list c p os Hu); [reflexivity|].
+  intros E. assert (In o (filter ipcp_rejectable os)) by (apply filter_In; auto).
+  rewrite E in H. contradiction.
+Qed.
+
+(* the Nak side on the wire *)
+Lemma ipcp_wire_nak : forall c st p id wire acts st' p' os v,
+  usable (ic_assigned c) = true -> to4o (ic_assigned c) = Some v ->
+  ipcp_input c st p id wire = (acts, st', p') -> parse_wire wire = Ok os -> replies st = true ->
+  (forall o, In o os -> ipcp_rejectable o = false) ->
+  (exists o, In o os /\ o_type o = 3%N /\ o_data o <> v) ->
+  exists nk, conf_packets acts = [Scn id nk] /\ In (mkopt 3 v) nk /\
+             (forall n, In n nk -> o_type n = 3%N -> o_data n = v).
+Proof.
+  intros c st p id wire acts st' p' os v Hu Hv Hin Hp Hr Hnorej (o & Ho & Ht & Hne).
+  pose proof (ipcp_wire_packet _ _ _ _ _ _ _ _ Hin) as W. rewrite Hp, Hr in W.
+  destruct (ipcp_req c p os) as [r p1] eqn:R. simpl in W.
+  assert (Hl : length (o_data o) = 4%nat).
+  { pose proof (Hnorej o Ho) as X. unfold ipcp_rejectable in X. rewrite Ht in X. cbn [N.eqb Pos.eqb orb andb] in X.
+    destruct (Nat.eqb_spec (length (o_data o)) 4); [assumption|discriminate]. }
+  destruct (ipcp_ack_only_assigned c p os r p1 v Hu Hv R) as (_ & _ & N3 & Hwrong).
+  destruct (Hwrong o Ho Ht Hl Hne) as (Hnak & _ & _).
+  assert (Hrej : r_rej r = []).
+  { pose proof (ipcp_rej_list c p os Hu) as X. rewrite R in X. simpl in X. rewrite X.
+    clear -Hnorej. induction os as [|a os IH]; simpl; [reflexivity|].
+    rewrite (Hnorej a (or_introl eq_refl)). apply IH. intros; apply Hnorej; right; assumption. }
+  exists (r_nak r). split; [|split; [exact Hnak|exact N3]].
+  rewrite W. f_equal. destruct (reply_priority id r) as (_ & R2 & _). apply R2; auto.
+  intros E. rewrite E in Hnak. contradiction.
+Qed.
+
+(* a request containing a wrong address proposal is never answered with a Configure-Ack *)
+Lemma ipcp_wire_wrong_not_acked : forall c st p id wire acts st' p' os v,
+  usable (ic_assigned c) = true -> to4o (ic_assigned c) = Some v ->
+  ipcp_input c st p id wire = (acts, st', p') -> parse_wire wire = Ok os ->
+  (exists o, In o os /\ o_type o = 3%N /\ o_data o <> v) ->
+  forall id' os', ~ In (Sca id' os') acts.
+Proof.
+  intros c st p id wire acts st' p' os v Hu Hv Hin Hp (o & Ho & Ht & Hne) id' os' Hs.
+  destruct (ipcp_wire_ack c st p id wire acts st' p' id' os' v Hu Hv Hin Hs) as (P & _ & A & _).
+  rewrite Hp in P. inversion P; subst. apply Hne. apply A; auto.
+Qed.
+
+(* the two-step behaviour: wrong proposal together with rejectable options -> Reject naming exactly those;
+   the request with those options removed (what RFC 1661 5.4 makes the peer send next) -> Nak with v *)
+Lemma filter_filter_neg : forall {A} (f : A -> bool) l x, In x (filter (fun y => negb (f y)) l) -> f x = false.
+Proof. intros A f l x H. apply filter_In in H. destruct H as [_ H]. destruct (f x); [discriminate|reflexivity]. Qed.
+
+Lemma ipcp_two_step : forall c v os,
+  usable (ic_assigned c) = true -> to4o (ic_assigned c) = Some v ->
+  (exists o, In o os /\ o_type o = 3%N /\ length (o_data o) = 4%nat /\ o_data o <> v) ->
+  (exists o, In o os /\ ipcp_rejectable o = true) ->
+  forall st1 p1 id1 w1 acts1 st1' p1' st2 p2 id2 w2 acts2 st2' p2',
+  parse_wire w1 = Ok os -> replies st1 = true -> ipcp_input c st1 p1 id1 w1 = (acts1, st1', p1') ->
+  parse_wire w2 = Ok (filter (fun o => negb (ipcp_rejectable o)) os) -> replies st2 = true ->
+  ipcp_input c st2 p2 id2 w2 = (acts2, st2', p2') ->
+  conf_packets acts1 = [Scj id1 (filter ipcp_rejectable os)] /\
+  exists nk, conf_packets acts2 = [Scn id2 nk] /\ In (mkopt 3 v) nk /\
+             (forall n, In n nk -> o_type n = 3%N -> o_data n = v).
+Proof.
+  intros c v os Hu Hv (o & Ho & Ht & Hl & Hne) Hrej st1 p1 id1 w1 acts1 st1' p1' st2 p2 id2 w2 acts2 st2' p2'
+         P1 R1 I1 P2 R2 I2.
+  split; [eapply ipcp_wire_rej; eauto|].
+  eapply ipcp_wire_nak; eauto.
+  - intros x Hx. eapply filter_filter_neg; exact Hx.
+  - exists o. split; [|auto]. apply filter_In. split; auto.
+    unfold ipcp_rejectable. rewrite Ht, Hl. reflexivity.
+Qed.
+
+(* -- LCP on the wire -- *)
+Lemma lcp_wire_ack : forall magic st p id wire acts st' p' id' os,
+  lcp_input repaired magic st p id wire = (acts, st', p') -> In (Sca id' os) acts ->
+  parse_wire wire = Ok os /\ id' = id /\
+  (forall o, In o os -> o_type o = 1%N \/ o_type o = 3%N \/ o_type o = 5%N) /\
+  (magic <> 0%N -> forall o, In o os -> o_type o = 5%N -> num32 (o_data o) <> magic) /\
+  (forall o, In o os -> o_type o = 3%N ->
+     num16 (o_data o) = proto_pap \/
+     (num16 (o_data o) = proto_chap /\ exists a b, o_data o = [a; b; chap_md5])).
+Proof.
+  intros magic st p id wire acts st' p' id' os Hin Hs. unfold lcp_input in Hin.
+  destruct (parse_wire wire) as [opts| | |] eqn:P; try (inversion Hin; subst; contradiction).
+  destruct (lcp_req repaired magic p opts) as [r p1] eqn:R.
+  destruct (rcr_event st id r) as [a s1] eqn:E. inversion Hin; subst.
+  pose proof (rcr_event_sca _ _ _ _ _ _ _ E Hs) as Hr.
+  apply reply_is_ack in Hr. destruct Hr as (G & -> & ->).
+  destruct (lcp_partition repaired magic p opts) as (A & B & C). rewrite R in A, B, C. simpl in A, B, C.
+  destruct (good_all_ack (lcp_kind repaired magic) opts r A B C G) as [Hall _].
+  rewrite Hall. split; [reflexivity|]. split; [reflexivity|].
+  destruct (lcp_unknown_rejected repaired magic p opts r p' R) as (_ & U).
+  destruct (lcp_auth_supported_only magic p opts r p' R) as (S & _).
+  rewrite Hall in U, S. split; [intros o Ho; apply (U o Ho)|]. split; [|exact S].
+  intros Hm. destruct (lcp_no_own_magic repaired magic p opts r p' R Hm) as (M & _).
+  rewrite Hall in M. intros o Ho Ht. apply (M o Ho Ht).
+Qed.
+
+(* own magic looped back: never a Configure-Ack; a Nak carrying it unless something must be rejected first *)
+Lemma lcp_wire_loopback : forall fl magic st p id wire acts st' p' os o,
+  magic <> 0%N ->
+  lcp_input fl magic st p id wire = (acts, st', p') -> parse_wire wire = Ok os -> replies st = true ->
+  In o os -> o_type o = 5%N -> length (o_data o) = 4%nat -> num32 (o_data o) = magic ->
+  (forall id' os', ~ In (Sca id' os') acts) /\
+  (r_rej (fst (lcp_req fl magic p os)) = [] ->
+   exists nk, conf_packets acts = [Scn id nk] /\ In o nk) /\
+  (r_rej (fst (lcp_req fl magic p os)) <> [] ->
+   conf_packets acts = [Scj id (r_rej (fst (lcp_req fl magic p os)))]).
+Proof.
+  intros fl magic st p id wire acts st' p' os o Hm Hin Hp Hr Ho Ht Hl He.
+  pose proof (lcp_wire_packet _ _ _ _ _ _ _ _ _ Hin) as W. rewrite Hp, Hr in W.
+  destruct (lcp_req fl magic p os) as [r p1] eqn:R. simpl in *.
+  destruct (lcp_no_own_magic fl magic p os r p1 R Hm) as (_ & L).
+  destruct (L o Ho Ht Hl He) as (Hnak & _ & Hng).
+  destruct (reply_priority id r) as (R1 & R2 & _).
+  split; [|split].
+  - intros id' os' Hs.
+    assert (Hc : In (Sca id' os') (conf_packets acts)) by (apply filter_In; split; auto).
+    rewrite W in Hc. destruct Hc as [Hc|[]]. apply reply_is_ack in Hc. destruct Hc as (G & _). congruence.
+  - intros Hrej. exists (r_nak r). split; auto. rewrite W. f_equal. apply R2; auto.
+    intros E. rewrite E in Hnak. contradiction.
+  - intros Hrej. rewrite W. f_equal. apply R1. exact Hrej.
+Qed.
+
+(* -- IPv6CP on the wire -- *)
+Lemma ipv6cp_opt_good : forall local s o,
+  is_good (v6_res (ipv6cp_opt local s o)) = true ->
+  r_ack (v6_res (ipv6cp_opt local s o)) = r_ack (v6_res s) ++ [o].
+Proof.
+  intros local s o. unfold ipv6cp_opt, v6_nak.
+  assert (G1 : forall r x, is_good (add_nak r x) = false).
+  { intros r x. unfold is_good, add_nak. simpl. destruct (r_nak r); reflexivity. }
+  assert (G2 : forall r x, is_good (add_rej r x) = false).
+  { intros r x. unfold is_good, add_rej. simpl. destruct (r_nak r); destruct (r_rej r); reflexivity. }
+  split_ifs; simpl; try (rewrite G2; discriminate); try reflexivity;
+    destruct (v6_oracle s); simpl; rewrite G1; discriminate.
+Qed.
+
+Lemma ipv6cp_fold_good : forall local opts s,
+  is_good (v6_res (fold_left (ipv6cp_opt local) opts s)) = true ->
+  r_ack (v6_res (fold_left (ipv6cp_opt local) opts s)) = r_ack (v6_res s) ++ opts.
+Proof.
+  intros local opts. induction opts as [|o opts IH]; intros s G; simpl in *; [rewrite app_nil_r; reflexivity|].
+  assert (G1 : is_good (v6_res (ipv6cp_opt local s o)) = true).
+  { destruct (is_good (v6_res (ipv6cp_opt local s o))) eqn:E; [reflexivity|].
+    rewrite (ipv6cp_fold_mono local opts _ E) in G. discriminate. }
+  rewrite (IH _ G). rewrite (ipv6cp_opt_good _ _ _ G1). rewrite <- app_assoc. reflexivity.
+Qed.
+
+Lemma ipv6cp_wire_ack : forall local st p oracle id wire acts st' p' id' os,
+  ipv6cp_input local st p oracle id wire = (acts, st', p') -> In (Sca id' os) acts ->
+  parse_wire wire = Ok os /\ id' = id /\ forall o, In o os -> v6_ok local os o.
+Proof.
+  intros local st p oracle id wire acts st' p' id' os Hin Hs. unfold ipv6cp_input in Hin.
+  destruct (parse_wire wire) as [opts| | |] eqn:P; try (inversion Hin; subst; contradiction).
+  destruct (rcr_event st id (v6_res (ipv6cp_req local p oracle opts))) as [a s1] eqn:E.
+  inversion Hin; subst.
+  pose proof (rcr_event_sca _ _ _ _ _ _ _ E Hs) as Hr.
+  apply reply_is_ack in Hr. destruct Hr as (G & -> & ->).
+  unfold ipv6cp_req in *. pose proof (ipv6cp_fold_good local opts _ G) as A. simpl in A.
+  rewrite A. split; [reflexivity|]. split; [reflexivity|].
+  intros o Ho. apply (ipv6cp_iid local p oracle opts o). unfold ipv6cp_req. rewrite A. exact Ho.
+Qed.
+
+Lemma ipv6cp_wire_bad : forall local st p oracle id wire acts st' p' os o,
+  ipv6cp_input local st p oracle id wire = (acts, st', p') -> parse_wire wire = Ok os ->
+  In o os ->
+  (o_type o <> 1%N \/ length (o_data o) <> 8%nat \/ all_zero (o_data o) = true \/ o_data o = local) ->
+  forall id' os', ~ In (Sca id' os') acts.
+Proof.
+  intros local st p oracle id wire acts st' p' os o Hin Hp Ho Hbad id' os' Hs.
+  destruct (ipv6cp_wire_ack _ _ _ _ _ _ _ _ _ _ _ Hin Hs) as (P & _ & A).
+  rewrite Hp in P. inversion P; subst. destruct (A o Ho) as (_ & T & L & Z & N).
+  destruct Hbad as [H|[H|[H|H]]]; congruence.
 Qed.
